@@ -115,6 +115,7 @@ def register(R):
   ]
   R.bounded_checks['C11'] = [
       ('bounded_algebra', 'every shipped metric: associativity, commutativity, neutral element, operand intact, no leak, repeatable result'),
+      ('bounded_merge_states', 'AggregateFn.merge_states over 2..5 states modifies only its first state'),
   ]
   for p_ in PROPS:
     R.trusted[p_] = ['A1 floats are reals with a NaN flag', 'A3 pointwise view; count/sum/sum-of-squares of the non-NaN entries are additive under row concatenation',
